@@ -55,6 +55,10 @@ pub enum RangeError {
     /// Maximum retry attempts exceeded
     #[error("Maximum retry attempts exceeded")]
     MaxRetriesExceeded,
+
+    /// The requested range or archive name cannot be expressed as a request
+    #[error("Invalid range request: {0}")]
+    InvalidRequest(String),
 }
 
 impl RangeDownloader {
@@ -139,7 +143,15 @@ impl RangeDownloader {
         offset: u64,
         length: u64,
     ) -> Result<Vec<u8>, RangeError> {
-        let range_header = format!("bytes={}-{}", offset, offset + length - 1);
+        // Last byte of the range; an empty range or one that ends beyond u64::MAX is a
+        // caller error, not an arithmetic overflow.
+        let last = length
+            .checked_sub(1)
+            .and_then(|l| offset.checked_add(l))
+            .ok_or_else(|| {
+                RangeError::InvalidRequest(format!("offset {offset}, length {length}"))
+            })?;
+        let range_header = format!("bytes={offset}-{last}");
 
         for attempt in 0..self.max_retries {
             let response = self
@@ -212,24 +224,22 @@ impl RangeDownloader {
     ) -> Result<Vec<u8>, RangeError> {
         // Construct archive URL with proper CDN path structure
         // Archives are stored in a two-level directory structure based on the first 4 characters
+        // (archive names come from remote configuration: too short or non-ASCII names are an
+        // error, not a slicing panic)
+        let (Some(first), Some(second)) = (archive_name.get(0..2), archive_name.get(2..4)) else {
+            return Err(RangeError::InvalidRequest(format!(
+                "archive name {archive_name:?} is shorter than four characters"
+            )));
+        };
         let url = if let Some(product_path) = &cdn_endpoint.product_path {
             format!(
                 "https://{}/{}/{}/data/{}/{}/{}",
-                cdn_endpoint.host,
-                cdn_endpoint.path,
-                product_path,
-                &archive_name[0..2],
-                &archive_name[2..4],
-                archive_name
+                cdn_endpoint.host, cdn_endpoint.path, product_path, first, second, archive_name
             )
         } else {
             format!(
                 "https://{}/{}/data/{}/{}/{}",
-                cdn_endpoint.host,
-                cdn_endpoint.path,
-                &archive_name[0..2],
-                &archive_name[2..4],
-                archive_name
+                cdn_endpoint.host, cdn_endpoint.path, first, second, archive_name
             )
         };
 
